@@ -1,6 +1,7 @@
 package props
 
 import (
+	"strings"
 	"bytes"
 	"fmt"
 	"math"
@@ -60,6 +61,7 @@ type PValCfg struct {
 	MaxElems    int
 	MaxDepth    int
 	AllFields   bool
+	LongStr     bool // a fifth of the strings / bytes are 100-400 bytes long (messages whose length prefix needs 2 bytes)
 }
 
 func pScalar(r *h.Rand, fd protoreflect.FieldDescriptor, cfg PValCfg) protoreflect.Value {
@@ -82,8 +84,14 @@ func pScalar(r *h.Rand, fd protoreflect.FieldDescriptor, cfg PValCfg) protorefle
 		}
 		return protoreflect.ValueOfFloat64(gen.GenDouble(r, false))
 	case protoreflect.StringKind:
+		if cfg.LongStr && r.Chance(20) {
+			return protoreflect.ValueOfString(strings.Repeat("long-string-", 9+r.Intn(25)))
+		}
 		return protoreflect.ValueOfString(string(gen.GenStr(r, gen.ValCfg{})))
 	case protoreflect.BytesKind:
+		if cfg.LongStr && r.Chance(20) {
+			return protoreflect.ValueOfBytes(bytes.Repeat([]byte{0xfe, 0x01, 0x80, 0x7f}, 30+r.Intn(70)))
+		}
 		return protoreflect.ValueOfBytes(gen.GenStr(r, gen.ValCfg{InvalidUTF8: true}))
 	case protoreflect.EnumKind:
 		vals := fd.Enum().Values()
